@@ -222,8 +222,14 @@ def run_benign_for(prop, jobs=12):
         if os.path.exists(os.path.join(d, 'patch.diff')):
             vs.append({'name': 'benign/' + os.path.basename(d), 'kind': 'diff', 'patch': os.path.join(d, 'patch.diff'), 'benign': True})
     miss = uncached(vs)
-    if miss:
-        run_variants(prop, miss, verbose=False)
+    # producing the facts of a refactoring costs one `cargo check` of a scratch copy (~8 s); they are cached per state of /repo,
+    # so a run that exhausts its time budget is continued by the next thorough run (of any property)
+    budget = float(os.environ.get('VERIF_BENIGN_BUDGET_S', '1500'))
+    t0 = time.time()
+    for v in miss:
+        if time.time() - t0 > budget:
+            break
+        run_variants(prop, [v], verbose=False)
     os.environ['VERIF_FIXTURE_FACTS'] = extract.extract_fixture()
     state = _repo_state()
     tasks = []
@@ -232,7 +238,9 @@ def run_benign_for(prop, jobs=12):
         if files:
             tasks.append((prop, v['name'], files, acc.get(os.path.basename(v['name']), {}).get('keys', [])))
     with multiprocessing.Pool(jobs) as pool:
-        return pool.map(_benign_one, tasks)
+        res = pool.map(_benign_one, tasks)
+    done = {t[1] for t in tasks}
+    return res + [{'variant': v['name'], 'status': 'not-evaluated', 'fired': []} for v in vs if v['name'] not in done]
 
 
 def main_parallel(props, save, jobs):
